@@ -1,6 +1,7 @@
 package gedcom
 
 import (
+	"sync"
 	"fmt"
 	"strings"
 	"time"
@@ -13,6 +14,11 @@ type IndividualNode struct {
 	families                      FamilyNodes
 	spouses                       []*IndividualNode
 	cachedUniqueIDs               *StringSet
+
+	// The derived values above are filled in from several goroutines when
+	// individuals are compared with more than one job. There is one mutex for
+	// each because Spouses needs Families.
+	familiesMutex, spousesMutex, uniqueIDsMutex sync.Mutex
 }
 
 // SpouseChildren connects a single spouse to a set of children. The children
@@ -29,6 +35,7 @@ func newIndividualNode(document *Document, pointer string, children ...Node) *In
 	return &IndividualNode{
 		newSimpleDocumentNode(document, TagIndividual, "", pointer, children...),
 		false, false, nil, nil, nil,
+		sync.Mutex{}, sync.Mutex{}, sync.Mutex{},
 	}
 }
 
@@ -82,6 +89,9 @@ func (node *IndividualNode) Spouses() (spouses IndividualNodes) {
 		return nil
 	}
 
+	node.spousesMutex.Lock()
+	defer node.spousesMutex.Unlock()
+
 	if node.cachedSpouses {
 		return node.spouses
 	}
@@ -122,6 +132,9 @@ func (node *IndividualNode) Families() (families FamilyNodes) {
 	if node == nil {
 		return nil
 	}
+
+	node.familiesMutex.Lock()
+	defer node.familiesMutex.Unlock()
 
 	if node.cachedFamilies {
 		return node.families
@@ -854,6 +867,9 @@ func (node *IndividualNode) UniqueIDs() (nodes []*UniqueIDNode) {
 // commonly unique identifiers such as the FamilySearch ID or UUID generated by
 // some applications.
 func (node *IndividualNode) UniqueIdentifiers() *StringSet {
+	node.uniqueIDsMutex.Lock()
+	defer node.uniqueIDsMutex.Unlock()
+
 	if node.cachedUniqueIDs == nil {
 		node.cachedUniqueIDs = NewStringSet()
 
